@@ -29,6 +29,7 @@ INFO = {
     "assumptions": [
         "reference automaton vp/reflr.py (textbook canonical LR(1); LALR look-aheads = union over equal LR(0) cores)",
         "a refutation twin (one implementation action withheld from the encoding) must come back sat on every run",
+        "every Datalog program is also exported as SMT-LIB2 and decided by the independent /usr/bin/z3 4.8.12 binary; a disagreement is a harness error",
         "termination clause: budgeted execution only",
     ],
     "rule": "one evaluation = one Datalog query; distinct_nontrivial = tables whose product automaton has more than "
@@ -202,6 +203,12 @@ def check_one(gshort, kind, start, twin=False, grammar=None):
     if any(v not in ("sat", "unsat") for v in verdicts.values()):
         out["status"] = "unknown"
         return out
+    second = q.get("second_solver", {})
+    out["second_solver"] = "skipped" if "skipped" in second else "agrees"
+    if "skipped" not in second and second != verdicts:
+        out["status"] = "error"
+        out["detail"] = "two solvers disagree: z3 5.1 (API) %r, z3 4.8.12 (binary, SMT-LIB2 export) %r" % (verdicts, second)
+        return out
     pairs, problems = horn.native_product(ref, rel, kind)
     out["pairs"] = pairs
     sat = [n for n, v in verdicts.items() if v == "sat"]
@@ -242,12 +249,15 @@ def run_case(params):
            "unknown_reasons": [], "stopped": None}
     t0 = time.process_time()
     programs = 0
+    second_agree = [0]
     for gshort in params["grammars"]:
         r = check_one(gshort, kind, start, twin=bool(params.get("twin")))
         programs += 1
         res["paths"] += 3
         res["solver_calls"] += 3
         res["solver_s"] += r.get("solver_s", 0.0)
+        if r.get("second_solver") == "agrees":
+            second_agree[0] += 1
         if r["status"] == "holds":
             res["confirmed"] += 3
             if r.get("pairs", 0) > 1:
@@ -266,7 +276,7 @@ def run_case(params):
     res["cpu_s"] = round(time.process_time() - t0, 2)
     res["solver_s"] = round(res["solver_s"], 2)
     res["holds"] = res["refuted"] == 0 and res["unknown"] == 0 and res["confirmed"] > 0
-    return {"result": res, "coverage_extra": {"programs": programs, "disagreements_checked": res["refuted"]},
+    return {"result": res, "coverage_extra": {"programs": programs, "disagreements_checked": res["refuted"], "second_solver_agreements": second_agree[0]},
             "functions": ["tables/__init__.py:create_table", "tables/__init__.py:first", "tables/__init__.py:follow",
                           "closure.py:closure", "closure.py:_new_item_follow", "tables/__init__.py:merge_states",
                           "tables/__init__.py:LRTable.__init__", "tables/__init__.py:LRTable.calc_conflicts_and_dynamic_terminals"],
